@@ -307,9 +307,12 @@ func run(id string, args []string) int {
 			continue
 		}
 		unlisted++
-		fmt.Printf("VIOLATION property=%s replay=%s\n", id, v.Replay)
-		fmt.Printf("  %s\n", v.What)
 		exit = 1
+		if unlisted > 6 {
+			continue
+		}
+		fmt.Printf("VIOLATION property=%s replay=%s\n", id, v.Replay)
+		fmt.Printf("  [%s] %s\n", v.Signature, clip(v.What, 1800))
 	}
 	for sig, n := range knownHits {
 		if n == 0 || printedKnown[sig] {
@@ -419,6 +422,13 @@ func replay(path string) int {
 	}
 	fmt.Printf("replay of %s: no violation reproduced (%s)\n", path, what)
 	return 0
+}
+
+func clip(s string, n int) string {
+	if len(s) > n {
+		return s[:n] + "..."
+	}
+	return s
 }
 
 func tailOf(path string, n int) string {
